@@ -407,6 +407,10 @@ class DUnionInit:
             "no_duplicate_hashes@C08": forall(range(seq_len(ms)), lambda k: forall(range(k), lambda l: implies(
                 not isinstance(at(ms, k), StringLiteral) and not isinstance(at(ms, l), StringLiteral), not (get_hash_string(at(ms, k)) == get_hash_string(at(ms, l)))))),
             "at_most_one_literal@C08": forall(range(seq_len(ms)), lambda k: forall(range(k), lambda l: not (isinstance(at(ms, k), StringLiteral) and isinstance(at(ms, l), StringLiteral)))),
+            "non_empty_when_some_argument_counts@C08": implies(
+                exists(range(seq_len(types)), lambda i: not isinstance(at(types, i), DUnion) and
+                       (not isinstance(at(types, i), StringLiteral) or attr_bool(at(types, i), "_overflow") or card(attr_set(at(types, i), "_literals")) > 0)),
+                seq_len(ms) >= 1),
             "dedup_only_by_hash@C01": forall(range(seq_len(types)), lambda i: implies(
                 not isinstance(at(types, i), DUnion) and not isinstance(at(types, i), StringLiteral),
                 exists(range(seq_len(ms)), lambda k: get_hash_string(at(ms, k)) == get_hash_string(at(types, i))))),
